@@ -3,6 +3,7 @@ package rules
 import (
 	"go/token"
 	"go/types"
+	"sort"
 	"strings"
 
 	"fv/internal/core"
@@ -44,11 +45,12 @@ func C07(ctx *core.Ctx) {
 		return
 	}
 	ctx.Rule("C07.R1", "subscriber loops survive bad messages: every exit is a lifecycle exit", 3)
-	ctx.Rule("C07.R2", "spawned-goroutine field discipline: goroutines started by Subscribe read only stable fields or read under the writers' lock", 4)
+	ctx.Rule("C07.R2", "spawned-goroutine field discipline: goroutines started by Subscribe read only stable fields or read under the writers' lock", 2)
 	ctx.Rule("C07.R3", "unsubscribe reaches workers: the loop's quit channel is closed exactly once on Unsubscribe's success path and the broker subscription is cancelled", 4)
 	ctx.Rule("C07.R4", "ack discipline: a message is acknowledged only on the nil-error edge of the callback", 1)
 	ctx.Rule("C07.R11", "a STOMP subscriber acknowledges off its consuming goroutine (a synchronous Conn.Ack deadlocks with go-stomp's read loop under back-pressure)", 1)
 	ctx.Rule("C07.R15", "Unsubscribe can be repeated after a failure: once the quit channel is closed every return clears the subscribed flag (no second close)", 2)
+	ctx.Rule("C07.R16", "a delivery goroutine works on the subscription it was started for: its loop re-reads no receiver field that Subscribe stores", 2)
 	ctx.Rule("C07.R14", "a subscriber transport that can be subscribed again arms a fresh quit channel in Subscribe (Unsubscribe closes the previous one)", 2)
 	c07SubjectAgreement(ctx, r)
 	c07SubscriptionIdentity(ctx, r)
@@ -228,6 +230,103 @@ func C07(ctx *core.Ctx) {
 				ctx.Check(okLock, "C07.R2", wn+" › reads field "+fname, r.IPos(in), "read under the lock held by every writer",
 					"the goroutine reads receiver field "+fname+" ("+why+") without the lock its writers hold: after Unsubscribe/re-Subscribe it can observe a nil or foreign value (nil callback ⇒ panic, wrong subscription ⇒ foreign messages)")
 			})
+			if len(seenF) == 0 {
+				ctx.Discharge("C07.R2", wn+" › reads no receiver field", fnPos(r, w), "everything the goroutine uses is handed to it at the go statement")
+			}
+			// ---- R16: the loop belongs to ONE subscription ---------------------------
+			// Subscribe may run again (after Unsubscribe) while this goroutine is still
+			// inside a handler. Every field Subscribe stores describes the latest
+			// subscription; a goroutine that re-reads one on each trip round its loop
+			// works, from then on, on the NEW subscription's channel/topic/stop signal
+			// with the OLD handler (both select cases ready ⇒ a message of the new
+			// topic goes to the unsubscribed handler). What the loop uses must have
+			// been handed in or copied before the loop.
+			if sst := namedStruct(r, tn); sst != nil && spawnI != nil {
+				rearmed := map[string]bool{}
+				subCone := map[*ssa.Function]bool{}
+				for _, g := range localCone(sub, 2) {
+					subCone[g] = true
+				}
+				for i := 0; i < sst.NumFields(); i++ {
+					fname := sst.Field(i).Name()
+					for _, fs := range fieldStores(r, tn, fname) {
+						if !fs.fresh && subCone[fs.fn] {
+							rearmed[fname] = true
+						}
+					}
+				}
+				type rd struct {
+					in    ssa.Instruction
+					fn    *ssa.Function
+					field string
+				}
+				var reads []rd
+				scan := func(g *ssa.Function, recv ssa.Value, all bool) {
+					lk := ssax.LockSets(g, nil)
+					ssax.Instrs(g, func(in ssa.Instruction) {
+						fa, ok := in.(*ssa.FieldAddr)
+						if !ok || ssax.Strip(fa.X) != recv {
+							return
+						}
+						fname := fa.X.Type().Underlying().(*types.Pointer).Elem().Underlying().(*types.Struct).Field(fa.Field).Name()
+						if !rearmed[fname] || (!all && !inCycle(in)) {
+							return
+						}
+						isRead := false
+						for _, u := range *fa.Referrers() {
+							if un, ok := u.(*ssa.UnOp); ok && un.Op == token.MUL {
+								isRead = true
+							}
+						}
+						if !isRead || len(lk[in]) > 0 && g == w && func() bool {
+							// read under the lock every Subscribe-side writer holds
+							for _, fs := range fieldStores(r, tn, fname) {
+								if fs.fresh || !subCone[fs.fn] {
+									continue
+								}
+								wl := ssax.LockSets(fs.fn, nil)[fs.in]
+								held := false
+								for k := range lk[in] {
+									if wl.Holds(k[strings.LastIndex(k, ".")+1:], true) {
+										held = true
+									}
+								}
+								if !held {
+									return false
+								}
+							}
+							return true
+						}() {
+							return
+						}
+						reads = append(reads, rd{in, g, fname})
+					})
+				}
+				if len(w.Params) > 0 {
+					scan(w, ssa.Value(w.Params[0]), false)
+					for _, c := range ssax.Calls(w) {
+						h := c.Static
+						if h == nil || h.Pkg != w.Pkg || len(h.Blocks) == 0 || h == w || !inCycle(c.Instr.(ssa.Instruction)) || h.Signature.Recv() == nil || len(c.Common.Args) == 0 {
+							continue
+						}
+						if ssax.Strip(c.Common.Args[0]) == ssa.Value(w.Params[0]) && len(h.Params) > 0 {
+							scan(h, ssa.Value(h.Params[0]), true)
+						}
+					}
+				}
+				if len(reads) == 0 {
+					ctx.Discharge("C07.R16", wn+" › the loop re-reads no field Subscribe stores", fnPos(r, w), sprintf("fields stored by Subscribe: %v; all uses inside the loop are parameters or copies taken before it", sortedKeys(rearmed)))
+				}
+				seenR := map[string]bool{}
+				for _, x := range reads {
+					if seenR[x.field] {
+						continue
+					}
+					seenR[x.field] = true
+					ctx.Violate("C07.R16", wn+" › the loop re-reads field "+x.field, r.IPos(x.in),
+						"the delivery goroutine reads receiver field "+x.field+" on every trip round its loop (in "+ssax.Name(x.fn)+"), and Subscribe stores that field: after Unsubscribe + Subscribe on the same transport a goroutine still busy in the old handler continues on the NEW subscription's "+x.field+" — a message of the new topic is handed to the handler that was unsubscribed (or the old goroutine no longer sees its own stop signal)")
+				}
+			}
 			// ---- R3 ---------------------------------------------------------------
 			var quitField string
 			for _, rs := range RecvSites(w) {
@@ -259,6 +358,12 @@ func C07(ctx *core.Ctx) {
 							continue
 						}
 						arg := ssax.Strip(goI.Call.Args[i])
+						if u, ok := arg.(*ssa.UnOp); ok && u.Op == token.MUL {
+							// go m.worker(…, m.stopC, …): the field is read at the go statement
+							if f := fieldNameOfAddr(u.X); f != "" {
+								quitField = f
+							}
+						}
 						ssax.Instrs(sub, func(in ssa.Instruction) {
 							if st, ok := in.(*ssa.Store); ok && ssax.Strip(st.Val) == arg {
 								if f := fieldNameOfAddr(st.Addr); f != "" {
@@ -498,4 +603,26 @@ func dominatedByFieldTest(b *ssa.BasicBlock, field string) bool {
 		}
 	}
 	return false
+}
+
+// namedStruct: the struct type behind the named type tn of the runtime package.
+func namedStruct(r *RT, tn string) *types.Struct {
+	if tn == "" {
+		return nil
+	}
+	obj := r.Pkg.Pkg.Scope().Lookup(tn)
+	if obj == nil {
+		return nil
+	}
+	st, _ := obj.Type().Underlying().(*types.Struct)
+	return st
+}
+
+func sortedKeys(m map[string]bool) []string {
+	var out []string
+	for k := range m {
+		out = append(out, k)
+	}
+	sort.Strings(out)
+	return out
 }
